@@ -207,12 +207,12 @@ def mini_transfer(s, rng, pdu, fid, pt, label, buflen, prior=None, disable=False
     if disable:
         s.enc("disable")
     s.dec_new(slots, max(1, len(pdu)), mgr)
-    s.prov(max(1, len(pdu)) + storage_extra, 0xEE)
-    s.prov(max(1, len(pdu)) + storage_extra, 0xEE)
+    s.prov(max(3, len(pdu)) + storage_extra, 0xEE)
+    s.prov(max(3, len(pdu)) + storage_extra, 0xEE)
     if prior is not None:
         i = s.encap(bs_gen(5, 3), 9, 0x0800, prior, bs_zero(64))
         s.decap_if("p:%d" % s.ops[i]["reg"], of=i)
-        s.prov(max(1, len(pdu)) + storage_extra, 0xEE)
+        s.prov(max(3, len(pdu)) + storage_extra, 0xEE)
     if with_preview and exts is None:
         s.preview(pdu, pt, label, buflen)
     buf = bs_const(0xAA, buflen)
